@@ -141,7 +141,7 @@ def proj(t, name):
         if '.' in name and not name.split('.')[0].isdigit():
             v, fname = name.split('.', 1)
             if v != variant:
-                return ('field', t, name)
+                return UNDEF  # projection of another variant: an unreachable path
         for f, x in fields:
             if f == fname:
                 return x
@@ -204,6 +204,7 @@ class Interp:
         self.muts = {}        # (bb, arg index) -> WriteRec (via &mut escapes into calls)
         self.returns = {}
         self.ret_assigns = {}
+        self.assign_vals = {}   # (bb, stmt index | 'dest') -> (plain local or None, value term)
         self.in_states = {}
         self.first_in = {}
         self.visits = {}
@@ -233,11 +234,17 @@ class Interp:
             return ('param', root[1])
         if root[0] == 'O':
             return root[1]
+        if root[0] == 'R':
+            return ('ref', root[1])
+        if root[0] == 'V':
+            return root[1]
         return TOP
 
     def root_write(self, st, root, v):
         if root[0] == 'L':
             st.env[root[1]] = v
+        elif root[0] in ('R', 'V'):
+            return
         else:
             st.store[root] = v
 
@@ -290,8 +297,21 @@ class Interp:
             elif k == 'field':
                 n = self.elem_name(e)
                 if isinstance(n, tuple):
-                    # closure upvar: a fresh opaque root named after the capture
-                    root, path = ('O', n), ()
+                    # closure upvar.  When the environment is a closure value built in this very body (a closure
+                    # spliced in by analysis/inline.py) resolve the capture; otherwise a fresh opaque root named after it.
+                    envv = strip_lv(self.read_loc(st, (root, path)))
+                    if envv[0] == 'phi':
+                        cands = [strip_lv(a) for a in envv[1] if strip_lv(a)[0] == 'closure']
+                        if cands and all(c[1] == cands[0][1] for c in cands):
+                            envv = cands[0]
+                    if envv[0] == 'closure' and e['idx'] < len(envv[2]):
+                        locs = self._closure_locs.get((envv[1], envv[2])) or self._closure_locs.get(envv[1])
+                        if locs and locs[e['idx']] is not None:
+                            root, path = ('R', locs[e['idx']]), ()
+                        else:
+                            root, path = ('V', envv[2][e['idx']]), ()
+                    else:
+                        root, path = ('O', n), ()
                 else:
                     path = path + (n,)
             elif k == 'downcast':
@@ -353,6 +373,7 @@ class Interp:
                 vals = tuple(self.at_wrap(o[1], self.value(st, o)) if o[0] == 'ref' else self.value(st, o) for o in ops)
                 locs = tuple(o[1] if o[0] == 'ref' else None for o in ops)
                 self._closure_locs[(rv['uid'], vals)] = locs
+                self._closure_locs.setdefault(rv['uid'], locs)
                 return ('closure', rv['uid'], vals)
             vals = tuple(self.value(st, o) for o in ops)
             if rv['agg'] == 'tuple':
@@ -410,6 +431,14 @@ class Interp:
             mutate = False
         if mutate and info['name'] in ACCESSOR_NAMES and not info['local']:
             mutate = False  # hands out a reference into the container, does not change it
+        if info['name'] in ('box_assume_init_into_vec_unsafe', 'into_vec') and len(args) == 1:
+            # `vec![a, b]`: the elements were written through the raw box pointer; recover them from the store
+            for root, sv in list(st.store.items()):
+                if root[0] == 'O' and any(x == vals[0] for x in _subterms_quick(root[1])):
+                    arrs = [x for x in _subterms_quick(sv) if isinstance(x, tuple) and x and x[0] == 'array']
+                    if arrs:
+                        vals = (arrs[0],)
+                        break
         callterm = ('call', cid, vals)
         if term_depth(callterm) > 60:
             callterm = TOP
@@ -434,6 +463,7 @@ class Interp:
         # destination
         dloc = self.loc_of(st, t['dest'])
         self.write_loc(st, dloc, result)
+        self.assign_vals[(bb, 'dest')] = (t['dest']['local'] if not t['dest']['proj'] else None, result, None)
         if dloc == (('L', 0), ()):
             self.ret_assigns[(bb, 'dest')] = WriteRec(bb, dloc, result, line, 'ret')
         if dloc[0][0] != 'L' or dloc[1]:
@@ -682,6 +712,7 @@ class Interp:
                 if term_depth(v) > 60:
                     v = TOP
                 self.write_loc(st, loc, v)
+                self.assign_vals[(bb, si)] = (s['place']['local'] if not s['place']['proj'] else None, self.value(st, v), s['rv'])
                 if loc[0][0] != 'L' or (loc[1] and self._is_param_local(loc[0])):
                     self.writes[(bb, si)] = WriteRec(bb, loc, self.value(st, v), s['span']['line'], 'assign')
                 if loc == (('L', 0), ()):
@@ -720,6 +751,20 @@ _CACHE = {}
 _EMPTY = State()
 
 
+def _subterms_quick(t, limit=200):
+    out, stack = [], [t]
+    while stack and len(out) < limit:
+        x = stack.pop()
+        out.append(x)
+        if isinstance(x, tuple):
+            for y in x:
+                if isinstance(y, tuple) and y and isinstance(y[0], str):
+                    stack.append(y)
+                elif isinstance(y, tuple):
+                    stack.extend(z for z in y if isinstance(z, tuple))
+    return out
+
+
 def strip_lv(t):
     while t[0] == 'lv':
         t = t[3]
@@ -729,6 +774,10 @@ def strip_lv(t):
 def root_str(root):
     if root[0] in ('L', 'P'):
         return '%s%d' % root
+    if root[0] == 'R':
+        return 'R:' + fmt_loc(root[1])
+    if root[0] == 'V':
+        return 'V:' + fmt_term(root[1], 3)
     return 'O:' + fmt_term(root[1], 3)
 
 
